@@ -11,6 +11,14 @@ mod c_alloc;
 mod c_flatten;
 mod c_interp;
 mod c_misc;
+mod c_view;
+mod c_jit;
+mod c_trace;
+mod c_simplify;
+mod c_reuse;
+mod c_bytecode;
+mod c_total;
+mod helpers;
 
 use common::Report;
 
@@ -21,6 +29,10 @@ fn main() {
         std::process::exit(2);
     }
     let contract = args[1].as_str();
+    if contract == "__total_child" {
+        // hidden sub-command: JIT legs of the `total` contract, run in a child so that an abort is observable
+        std::process::exit(c_total::child_main(&args));
+    }
     if contract == "replay" {
         let txt = std::fs::read_to_string(&args[2]).expect("replay file");
         let v: serde_json::Value = serde_json::from_str(&txt).expect("json");
@@ -28,19 +40,67 @@ fn main() {
     }
     let thorough = args.get(2).map(|s| s == "thorough").unwrap_or(false);
     let seed: u64 = args.get(3).and_then(|s| s.parse().ok()).unwrap_or(0);
+    if JIT_IN_PROCESS.contains(&contract) && std::env::var("VERIF_BOUNDED_INPROC").is_err() {
+        // these contracts call native code in this process; a panic inside one of its `extern "sysv64"`
+        // callbacks aborts the process.  Run them in a child so that a report is produced in every case.
+        println!("{}", serde_json::to_string(&guarded(contract, &args[2..])).unwrap());
+        return;
+    }
     let rep = run(contract, thorough, seed);
     println!("{}", serde_json::to_string(&rep.to_json()).unwrap());
+}
+
+/// contracts that run JIT evaluators in-process (`total` manages its own children)
+const JIT_IN_PROCESS: [&str; 8] = ["jit_point", "jit_bulk", "jit_interval", "jit_interval_valid", "jit_grad", "jit_trace", "simplify_sem", "reuse"];
+
+fn guarded(contract: &str, rest: &[String]) -> serde_json::Value {
+    let died = |what: String| {
+        let mut r = Report::new(contract);
+        r.space = "the contract's process died before it could report; nothing is claimed".into();
+        r.fail(format!("{contract}:process-died"), what, serde_json::json!({"contract": contract}));
+        r.to_json()
+    };
+    let exe = match std::env::current_exe() {
+        Ok(e) => e,
+        Err(e) => return died(format!("current_exe failed: {e}")),
+    };
+    match std::process::Command::new(exe).arg(contract).args(rest).env("VERIF_BOUNDED_INPROC", "1").output() {
+        Err(e) => died(format!("could not start the child process: {e}")),
+        Ok(out) => {
+            let text = String::from_utf8_lossy(&out.stdout);
+            match (out.status.success(), text.lines().last().and_then(|l| serde_json::from_str::<serde_json::Value>(l).ok())) {
+                (true, Some(v)) => v,
+                _ => {
+                    let err = String::from_utf8_lossy(&out.stderr);
+                    let tail: Vec<&str> = err.lines().rev().take(12).collect::<Vec<_>>().into_iter().rev().collect();
+                    died(format!("child process ended with {:?} (an abort here is most likely a panic inside an extern \"sysv64\" callback of the native evaluators); last stderr lines: {}", out.status, tail.join(" | ")))
+                }
+            }
+        }
+    }
 }
 
 pub fn run(contract: &str, thorough: bool, seed: u64) -> Report {
     match contract {
         "rev_range" => c_misc::rev_range(),
+        "view" => c_view::view(thorough),
         "interp_point" => c_interp::interp_point(thorough),
         "interp_bulk" => c_interp::interp_bulk(thorough),
         "interp_interval" => c_interp::interp_interval(thorough),
         "flatten" => c_flatten::flatten(thorough, seed),
         "alloc_cex" => c_alloc::alloc_cex(thorough, seed),
         "alloc_small_n" => c_alloc::alloc_small_n(thorough, seed),
+        "jit_point" => c_jit::jit_point(thorough, seed),
+        "jit_bulk" => c_jit::jit_bulk(thorough, seed),
+        "jit_interval" => c_jit::jit_interval(thorough),
+        "jit_interval_valid" => c_jit::jit_interval_valid(thorough),
+        "jit_grad" => c_jit::jit_grad(thorough),
+        "trace_vm" => c_trace::trace_vm(thorough),
+        "jit_trace" => c_trace::jit_trace(thorough),
+        "simplify_sem" => c_simplify::simplify_sem(thorough, seed),
+        "reuse" => c_reuse::reuse(thorough),
+        "bytecode" => c_bytecode::bytecode(thorough, seed),
+        "total" => c_total::total(thorough, seed),
         _ => {
             eprintln!("unknown contract {contract}");
             std::process::exit(2);
@@ -54,6 +114,12 @@ fn replay(v: &serde_json::Value) -> i32 {
         "alloc_cex" | "alloc_small_n" => c_alloc::replay(v),
         "flatten" => c_flatten::replay(v),
         "interp_point" | "interp_bulk" | "interp_interval" => c_interp::replay(v),
+        "jit_point" | "jit_bulk" | "jit_interval" | "jit_interval_valid" | "jit_grad" => c_jit::replay(v),
+        "trace_vm" | "jit_trace" => c_trace::replay(v),
+        "simplify_sem" => c_simplify::replay(v),
+        "reuse" => c_reuse::replay(v),
+        "bytecode" => c_bytecode::replay(v),
+        "total" => c_total::replay(v),
         _ => {
             eprintln!("no replay for contract {contract}");
             return 2;
